@@ -3,7 +3,7 @@
 #   patch applies, crate builds (default + all features), the existing suite passes with it, demo fails with it and passes without.
 # Confirmed ones are copied to /verif/seeded/<PROP>-m<k>/ (patch.diff, demo.rs, meta.json).
 set -u
-PROP="$1"; WT=/tmp/mut/$PROP; OUT=$WT/out
+PROP="$1"; FEAT="${2:-}"; FEATARG=""; [ -n "$FEAT" ] && FEATARG="--features $FEAT"; WT=/tmp/mut/$PROP; OUT=$WT/out
 cd "$WT" || exit 2
 export CARGO_NET_OFFLINE=true CARGO_TERM_COLOR=never
 for diff in "$OUT"/m*.diff; do
@@ -35,9 +35,9 @@ PY
   [ -f "$demo" ] || { echo "$PROP $k: no demo"; continue; }
   git checkout -q -- . ; rm -f tests/m*_demo.rs
   cp "$demo" tests/${k}_demo.rs
-  clean_demo=$(cargo test --offline --test ${k}_demo 2>&1 | grep -E "^test result" | head -1)
+  clean_demo=$(cargo test --offline $FEATARG --test ${k}_demo 2>&1 | grep -E "^test result" | head -1)
   git apply "$diff" || { echo "$PROP $k: patch does not apply"; rm -f tests/${k}_demo.rs; continue; }
-  mut_out=$(cargo test --offline --test ${k}_demo 2>&1); mut_rc=$?
+  mut_out=$(cargo test --offline $FEATARG --test ${k}_demo 2>&1); mut_rc=$?
   mut_demo=$(echo "$mut_out" | grep -E "^test result" | head -1)
   [ -z "$mut_demo" ] && [ $mut_rc -ne 0 ] && mut_demo="FAILED (test process aborted: $(echo "$mut_out" | grep -E "signal|SIGABRT|SIGSEGV|overflowed its stack" | head -1 | cut -c1-160))"
   rm -f tests/${k}_demo.rs
